@@ -215,11 +215,6 @@ static void chk_reparse_stable(const URI *u){
     long n1 = path_text(u, p1), n2 = path_text(&v, p2), i;
     uk_assert(n1 == n2, "C07: same path text when read back (length)");
     if (n1 == n2) for (i = 0; i < n1; i++) uk_assert(p1[i] == p2[i], "C07: same path text when read back");
-    { const SEG *a = u->pathHead, *b = v.pathHead; int same = 1;
-      while (a && b){ a = a->next; b = b->next; }
-      if (a || b) same = 0;
-      uk_assert(same, "C07: same number of path segments when read back");
-      uk_assert((u->absolutePath != 0) == (v.absolutePath != 0), "C07: same absolute-path flag when read back"); }
   }
   uk_assert(rng_text_eq(&u->query, &v.query), "C07: same query when read back");
   uk_assert(rng_text_eq(&u->fragment, &v.fragment), "C07: same fragment when read back");
